@@ -75,7 +75,7 @@ theorem step_M5 (cfg : Cfg) (ps : PS) (srv : Server) (ss : Sess) (ident cltpk cs
     (huuid : cfg.c.uuidOf ident = some u)
     (hsig : cfg.c.sigVerify cltpk csig (cfg.c.hkdf ss.Kb P4_SALT P4_INFO ++ ident ++ cltpk) = some true) :
     (step cfg ps ⟨ctrlM5 cfg.c ss.Kb (ctrlSub ident cltpk csig), salt, bRand⟩).1
-        = { ps with paired := [(u, cltpk, PERM_ADMIN)] } ∧
+        = { ps with paired := [(u, cltpk, PERM_ADMIN)], verifier := none } ∧
     (step cfg ps ⟨ctrlM5 cfg.c ss.Kb (ctrlSub ident cltpk csig), salt, bRand⟩).2.1
         = .m6 (cfg.c.aeadEnc (cfg.c.hkdf ss.Kb P3_SALT P3_INFO) NONCE6
               (accSub ps (cfg.c.sign (cfg.c.hkdf ss.Kb P5_SALT P5_INFO ++ ps.mac ++ ps.ltpk)))) := by
